@@ -89,6 +89,9 @@ func (p *Process) advance(cl *store.Cluster) func() {
 	v := p.view(cl)
 	ev := cl.Log[v.seen]
 	v.seen++
+	if p.w.Cfg.Trace {
+		p.w.Tracef("  event %s %s reaches %s", ev.Type, ev.Key, p.Name)
+	}
 	switch ev.Type {
 	case "DELETED":
 		delete(v.objs, ev.Key)
@@ -354,6 +357,9 @@ func newQueue(w *World, c *Controller) *Queue {
 func (q *Queue) Add(r reconcile.Request) {
 	if q.c.Proc.Dead {
 		return
+	}
+	if q.w.Cfg.Trace && !q.dirty[r] {
+		q.w.Tracef("enqueue %s %s", q.c.Name, r)
 	}
 	q.dirty[r] = true
 }
